@@ -165,7 +165,7 @@ CONTRACTS = {
                 "C05.K1 one component per public, not-yet-set annotated name, in annotation order": "len(components) == count_names(HINTS(), __i) and __i <= len(keys(HINTS())) and "
                     "forall(j, Int, implies(0 <= j and j < __i and is_comp_name(keys(HINTS())[j]), count_names(HINTS(), j) < len(components) and components[count_names(HINTS(), j)][0] == keys(HINTS())[j]))",
                 "injectables stays a proper dict": "wf_map(injectables)",
-            }},
+            }, "unconstrained_ok": ["component"]},      # a per-iteration temporary (the later loops rebind it as their target)
             1: {"inv": {"components injected so far": "forall(j, Int, implies(0 <= j and j < __i, components[j][1].g_injected))",
                         "C10.S5 (so far) reset entries: existing dicts, one per component that has markers, pairwise distinct components":
                             "len(self._reset_components) >= 0 and forall(a, Int, implies(0 <= a and a < len(self._reset_components), self._reset_components[a][0] is not None and self._reset_components[a][1] is not None and "
